@@ -11,7 +11,8 @@
 //	-mode db      pkg/database: SQL table + document collection, truncation through the database truncator
 //	              API and pkg/truncator, restart, catalog and collections keep working.
 //	-mode free    free-running committers / readers / truncator on one store, reads validated afterwards.
-//	-mode race    two concurrent TruncateUptoTx calls under a liveness deadline.
+//	-mode race    the minimal histories of the known findings, then two concurrent TruncateUptoTx calls under a
+//	              liveness deadline (the FRemove hook is used as a gate).
 package main
 
 import (
@@ -28,6 +29,7 @@ func main() {
 	dir := flag.String("dir", "", "scratch directory")
 	seed := flag.Int64("seed", 1, "seed")
 	runs := flag.Int("runs", 4, "number of runs (free, race, db)")
+	rounds := flag.Int("rounds", 30, "mode db: insert rounds before the first truncation")
 	cuts := flag.Int("cuts", 1, "mode replay: try every cut point after every k-th schedule (0 = never)")
 	flag.Parse()
 	if *dir == "" {
@@ -40,10 +42,11 @@ func main() {
 	case "replay":
 		runReplay(*sched, *seed, filepath.Join(*dir, "replay"), *cuts, res)
 	case "db":
-		runDB(*seed, filepath.Join(*dir, "db"), *runs, res)
+		runDB(*seed, filepath.Join(*dir, "db"), *runs, *rounds, res)
 	case "free":
 		runFree(*seed, filepath.Join(*dir, "free"), *runs, res)
 	case "race":
+		runRepro(*seed, filepath.Join(*dir, "repro"), res)
 		runRace(*seed, filepath.Join(*dir, "race"), *runs, res)
 	default:
 		vh.Fatalf("unknown mode %q", *mode)
